@@ -792,7 +792,7 @@ func nonsenseCatalogue(c *core.Ctx) {
 			// behind a valid chord that spells the same characters when degree, symbol and bass are run together
 			"- chord: {degree: \"11\", name: \"\"}\n  values: [1]\n- chord: {degree: \"1\", name: \"1\"}\n  values: [1]\n",
 			"- chord: {degree: \"1\", name: m, base: \"3\"}\n  values: [1]\n- chord: {degree: \"1\", name: \"m/3\"}\n  values: [1]\n",
-			"- chord: {degree: \"1\", name: \"7\"}\n  values: [1]\n- chord: {degree: \"17\", name: \"\"}\n  values: [1]\n- chord: {degree: \"1\", name: \"77\"}\n  values: [1]\n- chord: {degree: \"17\", name: \"7x\"}\n  values: [1]\n","- chord: {degree: \"1\", name: \"foo\"}\n  values: [\"1\"]\n", "- chord: {degree: \"1\", name: \"M\"}\n  values: [\"1\"]\n", chordY("- chord: {degree: \"5\", name: \"minorseventh\"}\n  values: [1]\n")},
+			"- chord: {degree: \"1\", name: \"7\"}\n  values: [1]\n- chord: {degree: \"17\", name: \"\"}\n  values: [1]\n- chord: {degree: \"1\", name: \"77\"}\n  values: [1]\n- chord: {degree: \"17\", name: \"7x\"}\n  values: [1]\n", "- chord: {degree: \"1\", name: \"foo\"}\n  values: [\"1\"]\n", "- chord: {degree: \"1\", name: \"M\"}\n  values: [\"1\"]\n", chordY("- chord: {degree: \"5\", name: \"minorseventh\"}\n  values: [1]\n")},
 			cmds: [][]string{{"info", "chord", "describe", "-t", "Cfoo"}, {"info", "chord", "describe", "-t", "C_77"}, {"info", "attr", "describe", "-t", "Major99"}, {"info", "attr", "describe", "-t", ""}}},
 		nonsense{name: "unknown modifier command", cmds: [][]string{{"write", "conv", "-c", "xyz"}, {"write", "conv", "-c", "cmt,xyz"}, {"write", "conv", "-c", "CMT"}, {"write", "conv"}, {"write", "conv", "-c", ""}}},
 		nonsense{name: "mixed notation", text: []string{"C[1] 2[1]", "1[1] D[1]", "C/2[1]", "1/E[1]", "C[1] R[1] 5_7[1]"}},
